@@ -46,10 +46,19 @@ package inhibit
 //@ spec lval(L model.LabelSet, n model.LabelName) model.LabelValue = n in L ? L[n] : ""
 //@ axiom eqFP_iff_equal_labels: forall r *InhibitRule, L1 model.LabelSet, L2 model.LabelSet :: { eqFP(r, L1), eqFP(r, L2) }
 //@     (eqFP(r, L1) == eqFP(r, L2)) == (forall n model.LabelName :: n in r.Equal ==> lval(L1, n) == lval(L2, n))
+// The body is verified up to the hash itself: the label set handed to LabelSet.Fingerprint holds exactly the
+// rule's equal labels, each with the alert's value (a missing label reading as empty), and the result is that
+// fingerprint. Assumed (after-call clause): the fingerprint of that projected label set is eqFP(r, lset).
 //@ func (*InhibitRule).fingerprintEquals
-//@   trusted
+//@   props C03
 //@   pure
+//@   requires r != nil
+//@   at call LabelSet).Fingerprint assert [hashes-exactly-the-equal-labels] (forall n model.LabelName :: (n in arg0) == (n in r.Equal)) && (forall n model.LabelName :: n in r.Equal ==> arg0[n] == lval(lset, n))
+//@   after call LabelSet).Fingerprint assume (forall n model.LabelName :: (n in arg0) == (n in r.Equal)) && (forall n model.LabelName :: n in r.Equal ==> arg0[n] == lval(lset, n)) ==> res0 == eqFP(r, lset)
+//@   ensures [result-is-the-fingerprint-of-the-equal-labels] called("LabelSet).Fingerprint") && result == ret("LabelSet).Fingerprint")
 //@   ensures result == eqFP(r, lset)
+//@   loop 1 invariant fresh(equalSet) && r.Equal == old(r.Equal) && dom(r.Equal) == rangedom && (forall n model.LabelName :: (n in equalSet) == (n in visited)) && (forall n model.LabelName :: n in visited ==> n in r.Equal && equalSet[n] == lval(lset, n))
+//@   assigns nothing
 
 //@ spec firing(a *types.Alert, now time.Time) bool = !(a.EndsAt != 0 && a.EndsAt <= now)
 //@ spec ruleOK(r *InhibitRule) bool = r != nil && r.scache != nil && r.scache.alerts != nil && idxOK(r.sindex) && store.ErrNotFound != nil
